@@ -403,7 +403,8 @@ fn judge(run: &Run, env: &Env, c: &Case) -> CaseResult {
         spec.intent %= 3;
     }
     let gd = defgen::expand_with(&spec, &opts());
-    let embed = c.embed % 3;
+    // a bare manifest store is neither embedded in anything nor can it carry an XMP reference
+    let embed = if *alabel == "c2pa" { 0 } else { c.embed % 3 };
     if std::env::var("VERIF_DUMP").is_ok() {
         let mut t = gd.json.to_string();
         t.truncate(6000);
@@ -505,33 +506,41 @@ fn judge(run: &Run, env: &Env, c: &Case) -> CaseResult {
     let got_state = if env.selftest == 2 { "Valid" } else { state };
     // A bare manifest store ("application/c2pa") has no associated asset: the SDK's own round-trip test
     // (builder.rs test over all formats) exempts it from validation; exactly the data-hash mismatch is tolerated.
-    let bare_store = *alabel == "c2pa" && sdk::failure_codes(&reader) == vec!["assertion.dataHash.mismatch".to_string()];
+    let bare_store = *alabel == "c2pa" && sdk::failure_codes(&reader).iter().all(|c| c == "assertion.dataHash.mismatch");
     if bare_store {
         run.count("bare_store_content_only");
     }
     if !bare_store && got_state != want_state && !(want_state == "Valid" && got_state == "Trusted") {
         let fc = sdk::failure_codes(&reader);
-        let detail: Vec<String> = sdk::verdict(&reader).codes.into_iter().filter(|c| c.contains("F:")).collect();
+        let detail: Vec<String> = sdk::verdict(&reader)
+            .codes
+            .into_iter()
+            .filter(|c| c.contains("F:") && !(*alabel == "c2pa" && c.contains("assertion.dataHash.mismatch")))
+            .collect();
         // two recognised defect classes get their own stable signatures (everything else stays generic)
         let icon_and_alg = gd.features.iter().any(|f| f == "resource_icon")
             && matches!(gd.expect.hash_alg.as_deref(), Some("sha384") | Some("sha512"));
-        if got_state == "Invalid"
-            && icon_and_alg
-            && detail.iter().all(|d| {
-                (d.contains("assertion.hashedURI.mismatch") && d.contains("c2pa.icon"))
+        let is_update_detached = gd.intent == IntentKind::Update && embed != 0;
+        let by_icon = |d: &String| {
+            icon_and_alg
+                && ((d.contains("assertion.hashedURI.mismatch") && d.contains("c2pa.icon"))
                     || (d.contains("assertion.missing") && d.contains("c2pa.databoxes"))
-                    || d.contains("general.error")
-            })
-        {
+                    || d.contains("general.error"))
+        };
+        let by_update = |d: &String| {
+            is_update_detached
+                && (d.contains("assertion.dataHash.mismatch") || d.contains("assertion.bmffHash.mismatch") || d.contains("assertion.boxesHash.mismatch"))
+        };
+        if got_state == "Invalid" && !detail.is_empty() && detail.iter().all(|d| by_icon(d) || by_update(d)) {
+            if detail.iter().any(|d| by_update(d)) {
+                return Err(Fail::new(
+                    "C03:update-manifest-not-embedded-invalid",
+                    format!("Update intent with {}: sign Ok, read-back Invalid; failures {detail:?}", if embed == 1 { "set_no_embed(true)" } else { "set_remote_url" }),
+                ));
+            }
             return Err(Fail::new(
                 "C03:icon-hashed-before-hash-alg",
                 format!("claim generator icon + hash_alg {:?}: sign Ok, read-back Invalid; failures {detail:?}", gd.expect.hash_alg),
-            ));
-        }
-        if got_state == "Invalid" && gd.intent == IntentKind::Update && embed != 0 && fc == vec!["assertion.dataHash.mismatch".to_string()] {
-            return Err(Fail::new(
-                "C03:update-manifest-not-embedded-invalid",
-                format!("Update intent with {}: sign Ok, read-back Invalid; failures {detail:?}", if embed == 1 { "set_no_embed(true)" } else { "set_remote_url" }),
             ));
         }
         return Err(Fail::new(
